@@ -24,7 +24,7 @@ import (
 // of the list, not a point fixed before the loop.
 func c18VertexDirections(c *core.Check) {
 	p := c.Prog
-	r := c.Rule("R12", "math.Atan2(ordinate, abscissa): every call of math.Atan2 in package svg, direct or through a forwarding helper, gets an expression over y-named coordinates first and one over x-named coordinates second", 4)
+	r := c.Rule("R12", "math.Atan2(ordinate, abscissa): every call of math.Atan2 in package svg, direct or through a forwarding helper, gets an expression over y-named coordinates first and one over x-named coordinates second", 2)
 	pk := p.ByPath["svg"]
 	if pk == nil {
 		r.Anchor("package svg")
